@@ -26,13 +26,13 @@ suite() { # runs whole suite; tolerates the load-flaky beacon test (100 ms sleep
 A="?"; B="?"; C="?"
 git apply "$PATCH" 2>/dev/null || git apply -3 "$PATCH" 2>/dev/null || { echo "RESULT $NAME patch-does-not-apply"; cd /; git -C /repo worktree remove --force "$WT"; exit 1; }
 A=$(suite)
-git apply "$DEMO" 2>/dev/null || { echo "RESULT $NAME demo-does-not-apply a=$A"; cd /; git -C /repo worktree remove --force "$WT"; exit 1; }
+git apply "$DEMO" 2>/dev/null || git apply -3 "$DEMO" 2>/dev/null || { echo "RESULT $NAME demo-does-not-apply a=$A"; cd /; git -C /repo worktree remove --force "$WT"; exit 1; }
 out=$(cargo test --offline "$FILTER" 2>&1)
 if echo "$out" | grep -qE "^test result: FAILED"; then B="fails"; elif echo "$out" | grep -qE "^test result: ok. [1-9]"; then B="passes(!)"; else B="no-tests-or-compile-error"; fi
 BMSG=$(echo "$out" | grep -E "panicked at|assertion" | head -2 | tr '\n' ' ' | cut -c1-300)
 # back to the unmodified tree, demonstration only
 git checkout -q -- . && git clean -fdq src && git reset -q && git checkout -q -- .
-git apply "$DEMO" || echo "demo does not re-apply"
+git apply "$DEMO" 2>/dev/null || git apply -3 "$DEMO" || echo "demo does not re-apply"
 out=$(cargo test --offline "$FILTER" 2>&1)
 if echo "$out" | grep -qE "^test result: ok. [1-9]" && ! echo "$out" | grep -qE "^test result: FAILED"; then C="passes"; else C="fails(!)"; fi
 cd /; git -C /repo worktree remove --force "$WT"
